@@ -172,16 +172,16 @@ var earlyTable = []earlyT{
 	{"/* open", "reject", "-", "7.4"},
 	{"a & ^ b", "reject", "-", "11.10"},
 	// baseline observations of the seeders
-	{"var a = o.if\nvar b = 2", "accept", "asi_after_keyword_property", "7.9.1: a keyword used as IdentifierName can end a statement"},
-	{"x = o.in\ny = 2", "accept", "asi_after_keyword_property", "7.9.1"},
-	{"x = o.class\nvar y", "accept", "asi_after_keyword_property", "7.9.1"},
+	{"var a = o.if\nvar b = 2", "accept", "-", "7.9.1: a keyword used as IdentifierName can end a statement"},
+	{"x = o.in\ny = 2", "accept", "-", "7.9.1"},
+	{"x = o.class\nvar y", "accept", "-", "7.9.1"},
 	{"x = o.iff\nvar y", "accept", "-", "7.9.1"},
-	{"1\u0085+\u00851", "reject", "nel_white_space", "7.2 / 7.3: U+0085 is neither WhiteSpace nor LineTerminator"},
-	{"a\u0085b", "reject", "nel_white_space", "7.2"},
+	{"1\u0085+\u00851", "reject", "-", "7.2 / 7.3: U+0085 is neither WhiteSpace nor LineTerminator"},
+	{"a\u0085b", "reject", "-", "7.2"},
 	{"a\u3000+\u2003b", "accept", "-", "7.2: Zs"},
-	{"/[", "reject", "regexp_unterminated_class", "7.8.5"},
-	{"x = /a[", "reject", "regexp_unterminated_class", "7.8.5"},
-	{"x = /a[/", "reject", "regexp_unterminated_class", "7.8.5: the slash is inside the class"},
+	{"/[", "reject", "-", "7.8.5"},
+	{"x = /a[", "reject", "-", "7.8.5"},
+	{"x = /a[/", "reject", "-", "7.8.5: the slash is inside the class"},
 	{"x = /a[/]/", "accept", "-", "7.8.5"},
 	{"({get a(){}, a:3})", "reject", "object_literal_duplicate_property", "11.1.5: data and accessor property with the same name"},
 	{"({a:3, get a(){}})", "reject", "object_literal_duplicate_property", "11.1.5"},
@@ -190,10 +190,10 @@ var earlyTable = []earlyT{
 	{"({set a(v){}, set a(w){}})", "reject", "object_literal_duplicate_property", "11.1.5"},
 	{"({a:1, a:2})", "accept", "-", "11.1.5: duplicate data properties are an error in strict code only"},
 	{"({get a(){}, set a(v){}})", "accept", "-", "11.1.5"},
-	{"v\\u0061r x = 1", "reject", "escaped_keyword", "7.6: an escape cannot make a keyword; the identifier named var is reserved"},
-	{"\\u0069f (x) y", "reject", "escaped_keyword", "7.6"},
-	{"x = tru\\u0065", "reject", "escaped_keyword", "7.6 / 7.8.2"},
-	{"x = typ\\u0065of y", "reject", "escaped_keyword", "7.6"},
+	{"v\\u0061r x = 1", "reject", "-", "7.6: an escape cannot make a keyword; the identifier named var is reserved"},
+	{"\\u0069f (x) y", "reject", "-", "7.6"},
+	{"x = tru\\u0065", "reject", "-", "7.6 / 7.8.2"},
+	{"x = typ\\u0065of y", "reject", "-", "7.6"},
 	{"x = o.\\u0069f", "accept", "-", "11.2.1: IdentifierName"},
 	{"var x = /a/\ng = 1", "accept", "regexp_flags_detached", "7.8.5 / 7.9.1"},
 	{"x = /a/ g", "reject", "regexp_flags_detached", "7.8.5: flags follow the closing slash immediately"},
